@@ -52,6 +52,10 @@ def add(*a, **k):
 # -- constructor (re-quoting routes) ------------------------------------------
 add("ctor.user", "user", "requote", lambda Y, t: Y.URL("http://%s@h.example/p" % t), strip="/?#@:[]\\", raw=lambda u: u.raw_user)
 add("ctor.password", "password", "requote", lambda Y, t: Y.URL("http://u:%s@h.example/p" % t), strip="/?#@[]\\", raw=lambda u: u.raw_password)
+add("ctor.user.defaultport", "user", "requote", lambda Y, t: Y.URL("http://%s@h.example:80/p" % t), strip="/?#@:[]\\", raw=lambda u: u.raw_user)
+add("ctor.password.defaultport", "password", "requote", lambda Y, t: Y.URL("wss://u:%s@[::1]:443/p" % t), strip="/?#@[]\\", raw=lambda u: u.raw_password)
+add("with_port.default.user", "user", "quote", lambda Y, t: Y.URL("ftp://h.example/p").with_user(t).with_port(21), raw=lambda u: u.raw_user, readback=lambda u: u.user,
+    needs=lambda t: t != "")
 add("ctor.path", "path", "requote", lambda Y, t: Y.URL("http://h.example/%s" % t), strip="?#", raw=lambda u: u.raw_path, prefix="/", tags=["auth-path"])
 add("ctor.path.rel", "path", "requote", lambda Y, t: Y.URL("/%s" % t), strip="?#", raw=lambda u: u.raw_path, prefix="/", needs=lambda t: not t.startswith("/"))
 add("ctor.query", "query", "requote", lambda Y, t: Y.URL("http://h.example/p?%s" % t), strip="#", raw=lambda u: u.raw_query_string)
